@@ -1,7 +1,8 @@
 (* C04 — Procedure calls follow PlusCal stack semantics (incl. recursion, tail calls).
    Only the property theorems, each closed by `exact <lemma>`, Print Assumptions beneath, and
    non-vacuity examples.  Model: C04/Model.v (tied to distsys by ./check C04). *)
-From PGV Require Import C04.Model C04.Proofs.
+From PGV Require Import C01.Proofs C01.ProofsInst.
+From PGV Require Import C04.Model C04.Proofs C04.ProofsExt.
 Open Scope string_scope.
 Open Scope list_scope.
 
@@ -84,6 +85,50 @@ Theorem activation_isolation_runtime : forall t (R : string -> Prop), wf_table t
     (forall y, ~ R y -> ~ reserved y -> cur s' y = cur s y).
 Proof. exact isolation_impl. Qed.
 Print Assumptions activation_isolation_runtime.
+
+Theorem tailcall_defined : forall t s g p args g',
+  wf_table t -> Rel s g -> live s g -> tailcall_spec t g p args = Some g' ->
+  exists s', tailcall_impl t s p args = Some s'.
+Proof. exact tailcall_defined_lemma. Qed.
+Print Assumptions tailcall_defined.
+
+(* 2b. by-reference parameters bound to resources that are NOT local variables (an archetype `ref` parameter
+       with a mapping macro, handed on as `ref e`): the procedure variable holds the resource's name; a read or
+       write through it (XRef) is an operation of the context's family of resources of C01 and leaves every
+       local slot alone; Call / Return / TailCall / assignments leave those resources alone.  Hence activation
+       isolation holds whatever such accesses happen, anywhere inside any activation. *)
+Theorem mapped_ref_access_is_a_resource_operation : forall t s x a s',
+  xstep t s (XRef x a) = Some s' ->
+  x_loc s' = x_loc s /\
+  exists h v, cur (x_loc s) x = VS h /\ sres (x_loc s) h = None /\
+              fam_step String.eqb node_impl (x_ext s) (h, a) = (x_ext s', Ok v).
+Proof. exact xstep_ref. Qed.
+Print Assumptions mapped_ref_access_is_a_resource_operation.
+
+Theorem calls_leave_nonlocal_resources_alone : forall t s e s',
+  xstep t s (XLocal e) = Some s' -> e <> ECommit -> x_ext s' = x_ext s.
+Proof. exact xstep_local_frame. Qed.
+Print Assumptions calls_leave_nonlocal_resources_alone.
+
+Theorem activation_isolation_mapped_refs : forall t (R : string -> Prop), wf_table t ->
+  forall q r a es s s',
+    wf_store (x_loc s) -> act t R q (locals_of es) ->
+    xrun t s (XLocal (ECall q r a) :: es) = Some s' ->
+    cur (x_loc s') ".stack" = cur (x_loc s) ".stack" /\ cur (x_loc s') ".pc" = VS r /\
+    (forall y, ~ R y -> ~ reserved y -> cur (x_loc s') y = cur (x_loc s) y).
+Proof. exact isolation_mapped_lemma. Qed.
+Print Assumptions activation_isolation_mapped_refs.
+
+(* an abort after any calls, returns, tail calls, assignments and accesses through such references restores every
+   local variable, .pc, .stack, and leaves the published view of every non-local resource (C01) unchanged *)
+Theorem abort_between_mapped_refs : forall t es s s',
+  quiescent (x_loc s) -> x_inv ctx_abs (x_ext s) -> x_qui ctx_abs (x_ext s) ->
+  Forall xno_commit es -> xrun t s es = Some s' -> fam_abp node_impl (x_ext s') = false ->
+  (forall x, cur (x_loc (xabort s')) x = cur (x_loc s) x) /\ quiescent (x_loc (xabort s')) /\
+  x_qui ctx_abs (x_ext (xabort s')) /\
+  x_oeq ctx_abs (x_obs ctx_abs (x_ext (xabort s'))) (x_obs ctx_abs (x_ext s)).
+Proof. exact abort_between_mapped_lemma. Qed.
+Print Assumptions abort_between_mapped_refs.
 
 (* 3. abort_between: whatever calls, returns, tail calls and assignments a section performed,
       an abort puts every variable, .pc and .stack back to the last commit *)
